@@ -221,6 +221,24 @@ EXTRA_SOURCES = {
 .names i0 i1 o
 11 1
 .end
+"""), ('clocked.eblif', """# a clock declaration, a .gate instance of a black box, a latch clocked by the declared clock
+.model top
+.inputs a b clk
+.outputs y q
+.clock clk
+.gate and2 i0=a i1=b o=n1
+.cname g0
+.latch n1 q re clk 0
+.cname l0
+.names n1 y
+1 1
+.end
+
+.model and2
+.inputs i0 i1
+.outputs o
+.blackbox
+.end
 """), ('wide.eblif', """# wide gate
 .model top
 .inputs i0 i1 i2 i3 i4 i5 i6 i7 i8 i9 i10 i11
@@ -389,6 +407,24 @@ def check_one(label, fmt, n, opts, tmpdir, rng):
             bad.append('Verilog Composer.run returned with its file still open')
         if norm_text(fmt, open(p4).read()) != norm_text(fmt, data1):
             bad.append('file written by Composer.run is incomplete when the call returns (%d bytes vs %d)' % (os.path.getsize(p4), size1))
+    if fmt == 'verilog' and n.top_instance is not None:
+        # the bottom-up order of the Composer interface (reverse=True; not reachable through sdn.compose): writing stays
+        # pure and repeatable, the file is closed, and the same modules are written (the same lines in another order)
+        _, b5 = canon_ids(n)
+        texts = []
+        for j in range(2):
+            c = Composer(o.get('definition_list', []), o.get('write_blackbox', True), o.get('defparam', False), reverse=True)
+            p5 = os.path.join(tmpdir, 'out5.v')
+            c.run(n, p5)
+            if not c.file.closed:
+                bad.append('Verilog Composer(reverse=True).run returned with its file still open')
+            texts.append(norm_text(fmt, open(p5).read()))
+        if texts[0] != texts[1]:
+            bad.append('second bottom-up compose gave a different text')
+        if sorted(texts[0].split('\n')) != sorted(norm_text(fmt, data1).split('\n')):
+            bad.append('bottom-up compose does not write the same lines as top-down compose')
+        if canon_ids(n)[1] != b5:
+            bad.append('bottom-up compose changed the netlist')
     if fmt == 'edif':
         try:
             sdn.parse(p1)
